@@ -165,18 +165,7 @@ theorem sim_step {σ σ' : Sym} {c : CState} {n : Nat} (st : Step) (hR : Sim σ 
         have := hR.pend hp
         simp [this]
       · intro p hp; simp at hp; exact hR.pendF p hp.1
-    | final =>
-      simp [scan] at h; subst h
-      refine ⟨_, rfl, ?_⟩
-      constructor
-      · simp [step, State.bind, upd, Role.path, tmp_ne_final]; exact hR.bound
-      · intro i hi
-        simp [step, State.bind, upd, Role.path, tmp_ne_final] at hi ⊢
-        exact hR.clean i hi
-      · intro _
-        apply List.filter_eq_nil_iff.mpr
-        intro p hp; rw [hR.pendF p hp]; simp [Role.path]
-      · intro p hp; simp at hp; exact hR.pendF p hp.1
+    | final => simp [scan] at h
   | rename a b =>
     cases a with
     | final => simp [scan] at h
